@@ -34,6 +34,7 @@ type verifFlightEnv struct {
 	mu       sync.Mutex
 	gate     chan struct{} // holds the first caller inside its function
 	entered  chan struct{}
+	once     sync.Once
 	failing  bool
 	yields   int
 }
@@ -54,7 +55,7 @@ func (e *verifFlightEnv) fn(r *verifCallRec, gated bool) func() (any, error) {
 		e.running[r.key]++
 		e.mu.Unlock()
 		if gated {
-			close(e.entered)
+			e.once.Do(func() { close(e.entered) })
 			<-e.gate
 		} else {
 			for i := 0; i < e.yields; i++ {
@@ -106,9 +107,9 @@ func (e *verifFlightEnv) checkShared(r *verifCallRec, useEx bool) {
 }
 
 func Verif_C18_singleflight() {
-	c := verifCase(6)
+	c := verifCase(8)
 	sameKey := c%2 == 0
-	startB := c / 2 // 0: while A executes; 1: together with A's release; 2: after A returned
+	startB := c / 2 // 0: while A executes; 1: together with A's release; 2: after A returned; 3: together with A, both held by the gate
 	useEx := verifChoose("api", 2) == 1
 	e := verifNewFlightEnv()
 	e.failing = verifChoose("failing", 2) == 1
@@ -132,8 +133,20 @@ func Verif_C18_singleflight() {
 	}
 	wg.Add(2)
 	go do(a, true)
-	<-e.entered // A is inside its function
+	if startB == 3 {
+		go do(b, true)
+		verifYield() // both have come to rest: inside the function or waiting for the other
+		if sameKey {
+			verifAssert(e.execs == 1, "of two calls arriving together for one key exactly one executes while the other waits")
+			verifReach("together")
+		} else {
+			verifAssert(e.execs == 2, "calls arriving together for different keys both execute")
+		}
+	}
+	<-e.entered // A (or, arriving together, one of the two) is inside its function
 	switch startB {
+	case 3:
+		close(e.gate)
 	case 0:
 		go do(b, false)
 		verifYield() // B has joined A's flight (same key) or finished (other key)
@@ -156,8 +169,10 @@ func Verif_C18_singleflight() {
 	verifYield()
 	e.checkShared(a, useEx)
 	e.checkShared(b, useEx)
-	verifAssert(a.executed == 1, "the first call executes")
-	if sameKey && startB == 0 {
+	if startB != 3 {
+		verifAssert(a.executed == 1, "the first call executes")
+	}
+	if sameKey && (startB == 0 || startB == 3) {
 		verifAssert(e.execs == 1, "overlapping calls for one key are served by one execution")
 		verifAssert(b.val == a.val && b.err == a.err, "overlapping calls receive the same result")
 		verifReach("overlap-shared")
@@ -180,9 +195,9 @@ func Verif_C18_singleflight() {
 }
 
 func Verif_C18_lockedcalls() {
-	c := verifCase(4)
+	c := verifCase(6)
 	sameKey := c%2 == 0
-	startB := c / 2 // 0: while A executes; 1: together with A's release
+	startB := c / 2 // 0: while A executes; 1: together with A's release; 2: together with A, both held by the gate
 	e := verifNewFlightEnv()
 	e.yields = verifChoose("yields", 2)
 	g := NewLockedCalls()
@@ -200,8 +215,20 @@ func Verif_C18_lockedcalls() {
 	}
 	wg.Add(2)
 	go do(a, true)
+	if startB == 2 {
+		go do(b, true)
+		verifYield()
+		if sameKey {
+			verifAssert(e.execs == 1, "of two calls arriving together for one key one executes while the other waits")
+			verifReach("together")
+		} else {
+			verifAssert(e.execs == 2, "calls arriving together for different keys both execute")
+		}
+	}
 	<-e.entered
-	go do(b, false)
+	if startB != 2 {
+		go do(b, false)
+	}
 	if startB == 0 {
 		verifYield()
 		if sameKey {
